@@ -114,7 +114,7 @@ def _contract_job(args):
                             wit = c.witness(frun.vc, model, fo) if hasattr(c, 'witness') else None
                         except Exception as e:   # witness extraction is best effort
                             wit = dict(witness_error='%s: %s' % (type(e).__name__, e))
-                        out['refuted'].append(dict(name=o.name, kind=o.kind, note=o.note, witness=wit,
+                        out['refuted'].append(dict(name=o.name, kind=o.kind, note=o.note, witness=wit, tags=list(o.tags) + list(fo.tags),
                                                    model=_model_text(model), fin=c.fin, seconds=round(dt, 3)))
                         break
                 for rd in out['results']:
@@ -341,8 +341,15 @@ def main(argv=None):
         json.dump(dict(property=prop, obligation=rf['name'], kind=rf['kind'], note=rf['note'], function=out['target'],
                        sha256=out['sha256'], solver=dict(mode='finitised', fin=rf['fin'], model=rf['model'], seconds=rf['seconds']),
                        witness=rf.get('witness'), replay=rep), open(path, 'w'), indent=1, default=str)
+        over = sorted({t[len('overapprox:'):] for t in rf.get('tags', []) if t.startswith('overapprox:')})
         if rep and rep.get('found'):
             lines.append('VIOLATION property=%s replay=%s obligation=%s' % (prop, path, rf['name']))
+        elif over:
+            # the counter-model lives in an over-approximated state (no representation invariant known for it) and no failing
+            # input exists on the real code within the bounded search: undecided, not a violation
+            degraded.append(dict(contract=out['cname'], obligation=rf['name'],
+                                 why='counter-model only under over-approximated state (%s); no failing input on the real code: undecided' % '; '.join(over)))
+            continue
         else:
             lines.append('VIOLATION property=%s replay=%s obligation=%s no-failing-input-found' % (prop, path, rf['name']))
         rc = 1
